@@ -14,7 +14,7 @@
 typedef int cmp_fn(const void*, const void*);
 int __CPROVER_file_local_lang_c_lang_search(const polyseed_lang* lang, const char* word, cmp_fn* cmp);
 
-struct in_t2_search { bool sorted, has_zero; unsigned p; unsigned signs; };
+struct in_t2_search { bool sorted, has_zero; unsigned p; unsigned signs; bool has_prefix, has_accents, compose; };
 static struct in_t2_search G;
 static polyseed_lang L;
 static const char* const KEY = "k";
@@ -52,6 +52,8 @@ void t2_search(void) {
     VASSUME(G.has_zero && G.p < LINEAR_PREFIX);
 #endif
     L.is_sorted = G.sorted;
+    /* the search must use the comparator it is given, whatever the other flags say */
+    L.has_prefix = G.has_prefix; L.has_accents = G.has_accents; L.compose = G.compose;
     int r = __CPROVER_file_local_lang_c_lang_search(&L, KEY, stub_cmp);
     VASSERT(r == (G.has_zero ? (int)G.p : -1), "T2 search returns the unique matching index, or -1");
     VASSERT(S_bad == 0, "T2 comparator only ever sees the key and entries of the list");
